@@ -192,6 +192,10 @@ fn main() {
             if kind == "elf_zeroid" { spec.id_ph = vec![0; 20]; }
             if kind == "elf_nosoname" { spec.soname = None; }
             let mut b = mdwh::elfgen::build(&spec);
+            if kind == "elf_badnote" {
+                // the first (only) note of the segment and of the section claims a name longer than the segment: it cannot be decoded
+                for f in ["phnote.namesz", "secnote.namesz"] { mdwh::elfgen::set_field(&mut b, f, 0xffff_fff0); }
+            }
             if kind == "elf_undyn" {
                 // the dynamic segment / section ends right after its last real entry: no DT_NULL within the declared size
                 let dynent = 16;
